@@ -48,8 +48,21 @@ def Circuit.selProducers (c : Circuit) (i : Nat) (sel : Sel) : List Nat :=
 def Circuit.isolated (c : Circuit) (i : Nat) (sel : Sel) (s : Sig) (e : Nat) : Bool :=
   (c.selProducers i sel).filter (fun p => (c.kind p).mayEmitB s) == [e]
 
+/-- the unique visible producer that may emit `s`, if there is exactly one -/
+def Circuit.soleProducer (c : Circuit) (i : Nat) (sel : Sel) (s : Sig) : Option Nat :=
+  match (c.selProducers i sel).filter (fun p => (c.kind p).mayEmitB s) with
+  | [e] => some e
+  | _ => none
+
+/-- entity `p` is not the combinator of a declared input (so its constants are not varied) -/
+def notInputEnt (nodes : Array CNode) (bind : Nat → Option Bind) (p : Nat) : Bool :=
+  (List.range nodes.size).all (fun n =>
+    match nodes[n]?, bind n with
+    | some (.input ..), some (.ent e _) => e != p
+    | _, _ => true)
+
 /-- does operand `o` of entity `i` denote argument `a`? -/
-def matchOperand (c : Circuit) (bind : Nat → Option Bind) (i : Nat) (o : Operand) (a : Arg) : Bool :=
+def matchOperand (c : Circuit) (nodes : Array CNode) (bind : Nat → Option Bind) (i : Nat) (o : Operand) (a : Arg) : Bool :=
   match o, a with
   | .const k, .int k' => k == k'
   | .const k, .node m => bind m == some (.konst k)
@@ -57,6 +70,11 @@ def matchOperand (c : Circuit) (bind : Nat → Option Bind) (i : Nat) (o : Opera
     match bind m with
     | some (.ent e s') => s == s' && c.isolated i sel s e
     | _ => false
+  | .ref (.sig s) sel, .int k =>
+    -- an integer literal materialised as its own constant combinator
+    match c.soleProducer i sel s with
+    | some p => (match c.kind p with | .const [(t, v)] => t == s && v == k | _ => false) && notInputEnt nodes bind p
+    | none => false
   | _, _ => false
 
 /-- nodes whose value is always 0 or 1 -/
@@ -77,43 +95,86 @@ def argBelow (n : Nat) : Arg → Bool
 def isConstOneOut (o : DOut) (s : Sig) : Bool :=
   (match o.sig with | .sig t => t == s | _ => false) && !o.copy && o.const == 1
 
-def checkNode (c : Circuit) (nodes : Array CNode) (bind : Nat → Option Bind) (n : Nat) : Bool :=
-  match nodes[n]?, bind n with
-  | none, _ => true
-  | some _, none => true                       -- unbound nodes claim nothing
-  | some nd, some (.konst k) =>
-    match nd with
-    | .const _ v => v == k
+/-! ## value expressions: what one combinator (or a small tree of them) computes from Core arguments -/
+
+inductive VExpr
+  | arg (a : Arg)
+  | alu (op : ArithOp) (x y : VExpr)
+  /-- `1` if the comparison holds, else `0` -/
+  | cmpB (op : CmpOp) (x y : VExpr)
+  /-- `v` if the comparison holds, else `0` -/
+  | gate (op : CmpOp) (x y : VExpr) (v : Arg)
+  /-- one decider with all rows AND-ed / OR-ed -/
+  | allB (cs : List (CmpOp × Arg × Arg))
+  | anyB (cs : List (CmpOp × Arg × Arg))
+  deriving Repr, Inhabited
+
+def VExpr.val (av : Arg → I32) : VExpr → I32
+  | .arg a => av a
+  | .alu op x y => Facto.alu op (x.val av) (y.val av)
+  | .cmpB op x y => boolI (Facto.cmp op (x.val av) (y.val av))
+  | .gate op x y v => if Facto.cmp op (x.val av) (y.val av) then av v else 0
+  | .allB cs => boolI (cs.all (fun (op, a, b) => Facto.cmp op (av a) (av b)))
+  | .anyB cs => boolI (cs.any (fun (op, a, b) => Facto.cmp op (av a) (av b)))
+
+def VExpr.under (n : Nat) : VExpr → Bool
+  | .arg a => argBelow n a
+  | .alu _ x y => x.under n && y.under n
+  | .cmpB _ x y => x.under n && y.under n
+  | .gate _ x y v => x.under n && y.under n && argBelow n v
+  | .allB cs => cs.all (fun (_, a, b) => argBelow n a && argBelow n b)
+  | .anyB cs => cs.all (fun (_, a, b) => argBelow n a && argBelow n b)
+
+/-- operand `o` of entity `i` denotes `x`: directly (a bound node / constant), or through the only
+producer of that signal, which must itself compute `x` (`rec`) -/
+def lookThrough (c : Circuit) (rec : Nat → Sig → Bool) (i : Nat) (o : Operand) : Bool :=
+  match o with
+  | .ref (.sig t) sel =>
+    match c.soleProducer i sel t with
+    | some p => rec p t
+    | none => false
+  | _ => false
+
+def opIs (c : Circuit) (nodes : Array CNode) (bind : Nat → Option Bind) (rec : Nat → Sig → Bool)
+    (x : VExpr) (i : Nat) (o : Operand) : Bool :=
+  match x with
+  | .arg a => matchOperand c nodes bind i o a
+  | _ => lookThrough c rec i o
+
+def outIs (o : Option SigRef) (s : Sig) : Bool :=
+  match o with | some (.sig t) => t == s | _ => false
+
+def condsMatch (c : Circuit) (nodes : Array CNode) (bind : Nat → Option Bind) (e : Nat) :
+    List Cond → List (CmpOp × Arg × Arg) → Bool
+  | [], [] => true
+  | cd :: cds, (op, a, b) :: rest =>
+    !cd.usesEach && cd.op == op && matchOperand c nodes bind e cd.first a && matchOperand c nodes bind e cd.second b &&
+      condsMatch c nodes bind e cds rest
+  | _, _ => false
+
+/-- entity `e` computes `x` on signal `s` -/
+def entIs (c : Circuit) (nodes : Array CNode) (bind : Nat → Option Bind) : VExpr → Nat → Sig → Bool
+  | .arg _, _, _ => false
+  | .alu op x y, e, s =>
+    match c.kind e with
+    | .arith cfg =>
+      cfg.op == op && !cfg.first.isEach && !cfg.second.isEach && outIs cfg.out s &&
+        opIs c nodes bind (entIs c nodes bind x) x e cfg.first && opIs c nodes bind (entIs c nodes bind y) y e cfg.second
     | _ => false
-  | some nd, some (.ent e s) =>
-    match nd, c.kind e with
-    | .input _ ty _, .const m => ty == ty && (match m with | [(t, _)] => t == s | _ => false)
-    | .const _ v, .const m => (match m with | [(t, v')] => t == s && v == v' | _ => false)
-    | .arith op a b _, .arith cfg =>
-      argBelow n a && argBelow n b && cfg.op == op && !cfg.first.isEach && !cfg.second.isEach &&
-        (match cfg.out with | some (.sig t) => t == s | _ => false) &&
-        matchOperand c bind e cfg.first a && matchOperand c bind e cfg.second b
-    | .proj a _, .arith cfg =>
-      argBelow n a && cfg.op == .add && !cfg.first.isEach && !cfg.second.isEach &&
-        (match cfg.out with | some (.sig t) => t == s | _ => false) &&
-        matchOperand c bind e cfg.first a && (match cfg.second with | .const k => k == 0 | _ => false)
-    | .cmp op a b _, .decider cfg =>
-      argBelow n a && argBelow n b &&
+  | .cmpB op x y, e, s =>
+    match c.kind e with
+    | .decider cfg =>
       (match cfg.conds, cfg.outs with
        | [cd], [o] => !cd.usesEach && cd.op == op && isConstOneOut o s &&
-           matchOperand c bind e cd.first a && matchOperand c bind e cd.second b
+           opIs c nodes bind (entIs c nodes bind x) x e cd.first && opIs c nodes bind (entIs c nodes bind y) y e cd.second
        | _, _ => false)
-    | .lnot a _, .decider cfg =>
-      argBelow n a &&
-      (match cfg.conds, cfg.outs with
-       | [cd], [o] => !cd.usesEach && cd.op == .eq && isConstOneOut o s &&
-           matchOperand c bind e cd.first a && (match cd.second with | .const k => k == 0 | _ => false)
-       | _, _ => false)
-    | .gate op a b v _, .decider cfg =>
-      argBelow n a && argBelow n b && argBelow n v &&
+    | _ => false
+  | .gate op x y v, e, s =>
+    match c.kind e with
+    | .decider cfg =>
       (match cfg.conds, cfg.outs with
        | [cd], [o] => !cd.usesEach && cd.op == op &&
-           matchOperand c bind e cd.first a && matchOperand c bind e cd.second b &&
+           opIs c nodes bind (entIs c nodes bind x) x e cd.first && opIs c nodes bind (entIs c nodes bind y) y e cd.second &&
            (match o.sig with | .sig t => t == s | _ => false) &&
            (match v with
             | .int k => !o.copy && o.const == k
@@ -123,13 +184,100 @@ def checkNode (c : Circuit) (nodes : Array CNode) (bind : Nat → Option Bind) (
                | some (.konst k) => !o.copy && o.const == k
                | none => false))
        | _, _ => false)
-    | .land a b _, .arith cfg =>
-      -- boolean shortcut: a * b on 0/1 operands
-      argBelow n a && argBelow n b && isBoolArg nodes a && isBoolArg nodes b &&
-        cfg.op == .mul && !cfg.first.isEach && !cfg.second.isEach &&
-        (match cfg.out with | some (.sig t) => t == s | _ => false) &&
-        matchOperand c bind e cfg.first a && matchOperand c bind e cfg.second b
-    | _, _ => false
+    | _ => false
+  | .allB cs, e, s =>
+    match c.kind e with
+    | .decider cfg =>
+      (match cfg.outs with
+       | [o] => isConstOneOut o s && !cs.isEmpty && cfg.conds.tail.all (fun cd => cd.isAnd) && condsMatch c nodes bind e cfg.conds cs
+       | _ => false)
+    | _ => false
+  | .anyB cs, e, s =>
+    match c.kind e with
+    | .decider cfg =>
+      (match cfg.outs with
+       | [o] => isConstOneOut o s && !cs.isEmpty && cfg.conds.tail.all (fun cd => !cd.isAnd) && condsMatch c nodes bind e cfg.conds cs
+       | _ => false)
+    | _ => false
+
+/-! ## what a Core node may be lowered to -/
+
+def CNode.argsBelow (n : Nat) : CNode → Bool
+  | .arith _ a b _ | .cmp _ a b _ | .land a b _ | .lor a b _ => argBelow n a && argBelow n b
+  | .gate _ a b v _ => argBelow n a && argBelow n b && argBelow n v
+  | .lnot a _ | .proj a _ => argBelow n a
+  | _ => true
+
+def ne0 (a : Arg) : VExpr := .cmpB .ne (.arg a) (.arg (.int 0))
+
+/-- the comparisons of a homogeneous `&&` (`isAnd`) / `||` chain rooted at node `m` -/
+def chain (nodes : Array CNode) (isAnd : Bool) : Nat → Nat → Option (List (CmpOp × Arg × Arg))
+  | 0, _ => none
+  | f + 1, m =>
+    match nodes[m]? with
+    | some (.cmp op x y _) => if argBelow m x && argBelow m y then some [(op, x, y)] else none
+    | some (.land (.node p) (.node q) _) =>
+      if isAnd && p < m && q < m then
+        match chain nodes isAnd f p, chain nodes isAnd f q with
+        | some l1, some l2 => some (l1 ++ l2)
+        | _, _ => none
+      else none
+    | some (.lor (.node p) (.node q) _) =>
+      if !isAnd && p < m && q < m then
+        match chain nodes isAnd f p, chain nodes isAnd f q with
+        | some l1, some l2 => some (l1 ++ l2)
+        | _, _ => none
+      else none
+    | _ => none
+
+/-- candidate lowerings of node `m` (every candidate denotes the node's value: `lowerings_sound`) -/
+def lowerings (nodes : Array CNode) : Nat → Nat → List VExpr
+  | 0, _ => []
+  | f + 1, m =>
+    match nodes[m]? with
+    | none => []
+    | some nd =>
+      if !nd.argsBelow m then [] else
+      match nd with
+      | .arith op a b _ =>
+        VExpr.alu op (.arg a) (.arg b) ::
+          (match op, a with
+           | .sub, .int k => if k == 0 then [VExpr.alu .mul (.arg b) (.arg (.int (i32 (-1))))] else []
+           | _, _ => [])
+      | .cmp op a b _ => [.cmpB op (.arg a) (.arg b)]
+      | .lnot a _ => [.cmpB .eq (.arg a) (.arg (.int 0))]
+      | .gate op a b v _ => [.gate op (.arg a) (.arg b) v]
+      | .proj a _ =>
+        VExpr.alu .add (.arg a) (.arg (.int 0)) ::
+          (match a with
+           | .node p => lowerings nodes f p
+           | .int _ => [])
+      | .land a b _ =>
+        (if isBoolArg nodes a && isBoolArg nodes b then [VExpr.alu .mul (.arg a) (.arg b)] else []) ++
+        [VExpr.alu .mul (ne0 a) (ne0 b)] ++
+        (match chain nodes true (f + 1) m with | some l => [VExpr.allB l] | none => [])
+      | .lor a b _ =>
+        (if isBoolArg nodes a && isBoolArg nodes b then [VExpr.cmpB .gt (.alu .add (.arg a) (.arg b)) (.arg (.int 0))] else []) ++
+        [VExpr.cmpB .gt (.alu .add (ne0 a) (ne0 b)) (.arg (.int 0))] ++
+        (match chain nodes false (f + 1) m with | some l => [VExpr.anyB l] | none => [])
+      | _ => []
+
+/-- node `nd` (at index `n`) is computed by entity `e` on signal `s` -/
+def checkEnt (c : Circuit) (nodes : Array CNode) (bind : Nat → Option Bind) (n : Nat) (nd : CNode) (e : Nat) (s : Sig) : Bool :=
+  match nd with
+  | .input _ _ _ => (match c.kind e with | .const [(t, _)] => t == s | _ => false)
+  | .const _ v => (match c.kind e with | .const [(t, v')] => t == s && v == v' | _ => false)
+  | _ => (lowerings nodes (n + 1) n).any (fun x => x.under n && entIs c nodes bind x e s)
+
+def checkNode (c : Circuit) (nodes : Array CNode) (bind : Nat → Option Bind) (n : Nat) : Bool :=
+  match nodes[n]?, bind n with
+  | none, _ => true
+  | some _, none => true                       -- unbound nodes claim nothing
+  | some nd, some (.konst k) =>
+    (match nd with
+     | .const _ v => v == k
+     | _ => false)
+  | some nd, some (.ent e s) => checkEnt c nodes bind n nd e s
 
 def checkAll (c : Circuit) (nodes : Array CNode) (bind : Nat → Option Bind) : Bool :=
   (List.range nodes.size).all (checkNode c nodes bind)
@@ -140,53 +288,118 @@ namespace Facto
 
 /-! ## binding discovery (untrusted: whatever it proposes is validated by `checkAll`) -/
 
-/-- the unique visible producer that may emit `s`, if there is exactly one -/
-def Circuit.soleProducer (c : Circuit) (i : Nat) (sel : Sel) (s : Sig) : Option Nat :=
-  match (c.selProducers i sel).filter (fun p => (c.kind p).mayEmitB s) with
-  | [e] => some e
-  | _ => none
+/-- could entity kind `k` be the lowering of node `m`? (a shallow filter that keeps wrong guesses out) -/
+def plausible (nodes : Array CNode) (m : Nat) (k : Kind) : Bool :=
+  match nodes[m]?, k with
+  | some (.input ..), .const _ => true
+  | some (.const ..), .const _ => true
+  | some (.arith op _ _ _), .arith cfg => cfg.op == op || (op == .sub && cfg.op == .mul)
+  | some (.proj ..), .arith _ => true
+  | some (.proj ..), .decider _ => true
+  | some (.cmp op _ _ _), .decider cfg => (match cfg.conds with | [cd] => cd.op == op | _ => false)
+  | some (.lnot ..), .decider cfg => (match cfg.conds with | [cd] => cd.op == .eq | _ => false)
+  | some (.gate op _ _ _ _), .decider cfg => (match cfg.conds with | [cd] => cd.op == op | _ => false)
+  | some (.land ..), .arith cfg => cfg.op == .mul
+  | some (.land ..), .decider cfg => cfg.conds.length ≥ 2
+  | some (.lor ..), .decider cfg => (match cfg.conds with | [cd] => cd.op == .gt | _ => true)
+  | _, _ => false
 
-def proposeOperand (c : Circuit) (i : Nat) (o : Operand) (a : Arg) : Option (Nat × Bind) :=
-  match o, a with
-  | .const k, .node m => some (m, .konst k)
-  | .ref (.sig s) sel, .node m => (c.soleProducer i sel s).map (fun e => (m, .ent e s))
+abbrev Props := List (Nat × Bind)
+
+def proposeArg (c : Circuit) (nodes : Array CNode) (i : Nat) (o : Operand) (a : Arg) : Option Props :=
+  match a, o with
+  | .int k, .const k' => if k == k' then some [] else none
+  | .int _, .ref (.sig _) _ => some []
+  | .node m, .const k => (match nodes[m]? with | some (.const _ v) => if v == k then some [(m, .konst k)] else none | _ => none)
+  | .node m, .ref (.sig t) sel =>
+    (match c.soleProducer i sel t with
+     | some p => if plausible nodes m (c.kind p) then some [(m, .ent p t)] else none
+     | none => none)
   | _, _ => none
 
-def setBind (b : Array (Option Bind)) (p : Option (Nat × Bind)) : Array (Option Bind) :=
-  match p with
-  | some (m, v) => if (b.getD m none).isNone then b.setIfInBounds m (some v) else b
-  | none => b
+def proposeOp (c : Circuit) (nodes : Array CNode) (rec : Nat → Sig → Option Props) (x : VExpr) (i : Nat) (o : Operand) : Option Props :=
+  match x with
+  | .arg a => proposeArg c nodes i o a
+  | _ =>
+    match o with
+    | .ref (.sig t) sel => (match c.soleProducer i sel t with | some p => rec p t | none => none)
+    | _ => none
 
-/-- propagate bindings from consumers to their operands, last node first -/
+def proposeConds (c : Circuit) (nodes : Array CNode) (e : Nat) : List Cond → List (CmpOp × Arg × Arg) → Option Props
+  | [], [] => some []
+  | cd :: cds, (op, a, b) :: rest =>
+    if cd.op == op then do
+      let p1 ← proposeArg c nodes e cd.first a
+      let p2 ← proposeArg c nodes e cd.second b
+      let p3 ← proposeConds c nodes e cds rest
+      pure (p1 ++ p2 ++ p3)
+    else none
+  | _, _ => none
+
+/-- if entity `e` has the shape of `x`, the bindings its leaves would need -/
+def proposeLeaves (c : Circuit) (nodes : Array CNode) : VExpr → Nat → Sig → Option Props
+  | .arg _, _, _ => none
+  | .alu op x y, e, s =>
+    match c.kind e with
+    | .arith cfg =>
+      if cfg.op == op && outIs cfg.out s then do
+        let p1 ← proposeOp c nodes (proposeLeaves c nodes x) x e cfg.first
+        let p2 ← proposeOp c nodes (proposeLeaves c nodes y) y e cfg.second
+        pure (p1 ++ p2)
+      else none
+    | _ => none
+  | .cmpB op x y, e, s =>
+    match c.kind e with
+    | .decider cfg =>
+      (match cfg.conds, cfg.outs with
+       | [cd], [o] =>
+         if cd.op == op && isConstOneOut o s then do
+           let p1 ← proposeOp c nodes (proposeLeaves c nodes x) x e cd.first
+           let p2 ← proposeOp c nodes (proposeLeaves c nodes y) y e cd.second
+           pure (p1 ++ p2)
+         else none
+       | _, _ => none)
+    | _ => none
+  | .gate op x y v, e, s =>
+    match c.kind e with
+    | .decider cfg =>
+      (match cfg.conds, cfg.outs with
+       | [cd], [o] =>
+         if cd.op == op && (match o.sig with | .sig t => t == s | _ => false) then do
+           let p1 ← proposeOp c nodes (proposeLeaves c nodes x) x e cd.first
+           let p2 ← proposeOp c nodes (proposeLeaves c nodes y) y e cd.second
+           let p3 : Props := match v with
+             | .node m =>
+               if o.copy then (match c.soleProducer e o.sel s with | some ev => [(m, .ent ev s)] | none => [])
+               else [(m, .konst o.const)]
+             | .int _ => []
+           pure (p1 ++ p2 ++ p3)
+         else none
+       | _, _ => none)
+    | _ => none
+  | .allB cs, e, _ =>
+    match c.kind e with
+    | .decider cfg => if cfg.conds.length ≥ 2 then proposeConds c nodes e cfg.conds cs else none
+    | _ => none
+  | .anyB cs, e, _ =>
+    match c.kind e with
+    | .decider cfg => if cfg.conds.length ≥ 2 then proposeConds c nodes e cfg.conds cs else none
+    | _ => none
+
+def setBind (b : Array (Option Bind)) (p : Nat × Bind) : Array (Option Bind) :=
+  if (b.getD p.1 none).isNone then b.setIfInBounds p.1 (some p.2) else b
+
+/-- propagate bindings from consumers to their operands, last node first: for each bound node take the
+first candidate lowering whose shape the bound entity has -/
 def inferBindings (c : Circuit) (nodes : Array CNode) (roots : List (Nat × Bind)) : Array (Option Bind) :=
-  let b0 : Array (Option Bind) := roots.foldl (fun b r => setBind b (some r)) (Array.replicate nodes.size none)
+  let b0 : Array (Option Bind) := roots.foldl setBind (Array.replicate nodes.size none)
   (List.range nodes.size).reverse.foldl (fun b n =>
-    match nodes[n]?, b.getD n none with
-    | some nd, some (.ent e _) =>
-      match nd, c.kind e with
-      | .arith _ x y _, .arith cfg => setBind (setBind b (proposeOperand c e cfg.first x)) (proposeOperand c e cfg.second y)
-      | .land x y _, .arith cfg => setBind (setBind b (proposeOperand c e cfg.first x)) (proposeOperand c e cfg.second y)
-      | .proj x _, .arith cfg => setBind b (proposeOperand c e cfg.first x)
-      | .cmp _ x y _, .decider cfg =>
-        (match cfg.conds with
-         | [cd] => setBind (setBind b (proposeOperand c e cd.first x)) (proposeOperand c e cd.second y)
-         | _ => b)
-      | .lnot x _, .decider cfg =>
-        (match cfg.conds with
-         | [cd] => setBind b (proposeOperand c e cd.first x)
-         | _ => b)
-      | .gate _ x y v _, .decider cfg =>
-        (match cfg.conds, cfg.outs with
-         | [cd], [o] =>
-           let b := setBind (setBind b (proposeOperand c e cd.first x)) (proposeOperand c e cd.second y)
-           (match v, o.sig with
-            | .node m, .sig s =>
-              if o.copy then setBind b ((c.soleProducer e o.sel s).map (fun ev => (m, .ent ev s)))
-              else setBind b (some (m, .konst o.const))
-            | _, _ => b)
-         | _, _ => b)
-      | _, _ => b
-    | _, _ => b) b0
+    match b.getD n none with
+    | some (.ent e s) =>
+      match (lowerings nodes (n + 1) n).findSome? (fun x => proposeLeaves c nodes x e s) with
+      | some ps => ps.foldl setBind b
+      | none => b
+    | _ => b) b0
 
 /-- longest-path rank certificate (untrusted; validated by `checkRanked`) -/
 def computeRank (c : Circuit) : Nat → Nat :=
